@@ -48,13 +48,12 @@ pub const TRANSPILED_SOURCE_FILE_EXTENSION: &str = ".transpiled.mmm";
 
 pub fn is_path_a_transpiled_source(path: &str) -> bool {
     fn ends_with_ignore_case(string: &str, pat: &str) -> bool {
-        for (c1, c2) in string.chars().rev().zip(pat.chars().rev()) {
-            if !c1.eq_ignore_ascii_case(&c2) {
-                return false;
-            }
-        }
+        // the whole of `pat`: a string that is shorter than it does not end in it
+        let Some(start) = string.len().checked_sub(pat.len()) else {
+            return false;
+        };
 
-        true
+        string.is_char_boundary(start) && string[start..].eq_ignore_ascii_case(pat)
     }
 
     ends_with_ignore_case(path, TRANSPILED_SOURCE_FILE_EXTENSION)
